@@ -418,3 +418,207 @@ func ruleSIBsorted(w *World, r *Report) {
 		r.Und("SIB-sorted", "anchor:selectNeighbors-calls", "", fmt.Sprintf("expected ≥7 calls of selectNeighbors, found %d", n))
 	}
 }
+
+// ruleGRDtraverse: soft-deleted nodes stay part of the road network until vacuum removes them.
+func ruleGRDtraverse(w *World, r *Report) {
+	r.Doc("GRD-traverse", "in the layer search the push onto the candidate (exploration) heap does not depend on the Deleted flag of the neighbour: tombstones are filtered from the results only, the search still walks through them (a region reachable only through not-yet-vacuumed deletes stays reachable)", 1)
+	fi := w.Func(hnswPkg, "Index.searchLayerUnlocked")
+	if fi == nil {
+		r.Und("GRD-traverse", "anchor:Index.searchLayerUnlocked", "", "anchor lost")
+		return
+	}
+	fn := w.SSAFunc(fi.Obj)
+	isCandPush := func(in ssa.Instruction) bool { return isMethodCall(in, "pkg/core/hnsw", "minHeap.Push") }
+	pushes := findInstrs(fn, isCandPush)
+	if len(pushes) == 0 {
+		r.Und("GRD-traverse", "anchor:candidates.Push", w.Pos(fi.Decl.Pos()), "no push onto a minHeap candidate set found in the layer search")
+		return
+	}
+	var tests []*ssa.Call
+	for _, in := range findInstrs(fn, func(in ssa.Instruction) bool {
+		c, ok := in.(*ssa.Call)
+		if !ok {
+			return false
+		}
+		o := calleeObj(&c.Call)
+		return o != nil && o.Pkg() != nil && o.Pkg().Path() == "sync/atomic" && shortName(o) == "Bool.Load" && recvIsField(c, "Deleted")
+	}) {
+		tests = append(tests, in.(*ssa.Call))
+	}
+	for i, p := range pushes {
+		bad := false
+		var at ssa.Instruction
+		for _, t := range tests {
+			tr, fl := condEdges(t)
+			for _, e := range append(tr, fl...) {
+				s := e.from.Succs[e.succ]
+				if len(s.Preds) == 1 && (s == p.Block() || s.Dominates(p.Block())) {
+					bad, at = true, t
+				}
+			}
+		}
+		pos := w.Pos(p.Pos())
+		if at != nil {
+			pos = w.Pos(at.Pos())
+		}
+		r.Cond(!bad, "GRD-traverse", fmt.Sprintf("searchLayerUnlocked:candidate-push#%d", i+1), pos, "the exploration push is reached on both outcomes of every Deleted test", "the layer search pushes a neighbour onto the exploration heap only on one outcome of a Deleted test: soft-deleted nodes are no longer walked through, so live vectors that are connected to the entry point only across not-yet-vacuumed deletes are never found (recall collapses after bulk deletes until the next vacuum)")
+	}
+}
+
+// ruleGRDelect: after a vacuum removed the entry point, the graph is declared empty only if no live node is left.
+func ruleGRDelect(w *World, r *Report) {
+	r.Doc("GRD-elect", "when Vacuum re-elects the entry point, the 'graph is empty' outcome (maxLevel = -1) is unreachable on every path on which a live node was seen: a surviving node always becomes the new entry point", 1)
+	fi := w.Func(hnswPkg, "GraphOptimizer.Vacuum")
+	if fi == nil {
+		r.Und("GRD-elect", "anchor:GraphOptimizer.Vacuum", "", "anchor lost")
+		return
+	}
+	fn := w.SSAFunc(fi.Obj)
+	isEmptyStore := func(in ssa.Instruction) bool {
+		c, ok := in.(*ssa.Call)
+		if !ok {
+			return false
+		}
+		o := calleeObj(&c.Call)
+		if o == nil || o.Pkg() == nil || o.Pkg().Path() != "sync/atomic" || shortName(o) != "Int32.Store" || !recvIsField(c, "maxLevel") {
+			return false
+		}
+		k, ok := constInt(c.Call.Args[len(c.Call.Args)-1])
+		return ok && k == -1
+	}
+	empties := findInstrs(fn, isEmptyStore)
+	if len(empties) == 0 {
+		r.Und("GRD-elect", "anchor:Vacuum:maxLevel.Store(-1)", w.Pos(fi.Decl.Pos()), "Vacuum no longer has an 'index is empty' outcome to guard")
+		return
+	}
+	// the election loop's tests: among all not-deleted tests, those whose deepest common dominator with the
+	// empty outcome is deepest (earlier phases of Vacuum test other nodes for other purposes)
+	depth := func(b *ssa.BasicBlock) int {
+		d := 0
+		for x := b; x != nil; x = x.Idom() {
+			d++
+		}
+		return d
+	}
+	common := func(a, b *ssa.BasicBlock) *ssa.BasicBlock {
+		for x := a; x != nil; x = x.Idom() {
+			if x.Dominates(b) {
+				return x
+			}
+		}
+		return nil
+	}
+	best := -1
+	isDelTest := func(in ssa.Instruction) bool {
+		c, ok := in.(*ssa.Call)
+		if !ok {
+			return false
+		}
+		o := calleeObj(&c.Call)
+		return o != nil && o.Pkg() != nil && o.Pkg().Path() == "sync/atomic" && shortName(o) == "Bool.Load" && recvIsField(c, "Deleted")
+	}
+	for _, t := range findInstrs(fn, isDelTest) {
+		if c := common(t.Block(), empties[0].Block()); c != nil && depth(c) > best {
+			best = depth(c)
+		}
+	}
+	n := 0
+	for _, in := range findInstrs(fn, func(in ssa.Instruction) bool {
+		if !isDelTest(in) {
+			return false
+		}
+		c := common(in.Block(), empties[0].Block())
+		return c != nil && depth(c) == best
+	}) {
+		t := in.(*ssa.Call)
+		_, live := condEdges(t) // Deleted == false
+		if len(live) == 0 {
+			continue
+		}
+		n++
+		bad := false
+		var wit []ssa.Instruction
+		for _, e := range live {
+			if found, wt := (pathQuery{fn: fn, target: isEmptyStore}).find(ipos{e.from.Succs[e.succ], -1}); found {
+				bad, wit = true, wt
+			}
+		}
+		r.Cond(!bad, "GRD-elect", fmt.Sprintf("Vacuum:live-node-seen#%d", n), w.Pos(t.Pos()), "once a live node was seen the empty-graph outcome is unreachable", "Vacuum can declare the graph empty (maxLevel = -1) although its election loop saw a live node (the 'found' flag is not set on every path from the not-deleted edge): searches then return nothing while vectors are live, and later inserts start a second, disconnected graph", w.witness(wit)...)
+	}
+	if n == 0 {
+		r.Und("GRD-elect", "anchor:Vacuum:election-loop", w.Pos(fi.Decl.Pos()), "no not-deleted test precedes the empty-graph outcome: election loop not recognised")
+	}
+}
+
+// ruleGRDsmallgraph: which insertion path a batch takes must depend on the graph that exists now.
+func ruleGRDsmallgraph(w *World, r *Report) {
+	r.Doc("GRD-smallgraph", "the test that sends a batch down the sequential path (graph too small for parallel insertion) compares the ef threshold with the number of ids currently registered, not with the monotone id counter: an index emptied by delete+vacuum is small again", 1)
+	fi := w.Func(hnswPkg, "Index.addBatchInternal")
+	if fi == nil {
+		r.Und("GRD-smallgraph", "anchor:Index.addBatchInternal", "", "anchor lost")
+		return
+	}
+	fn := w.SSAFunc(fi.Obj)
+	var ef *ssa.Parameter
+	for _, p := range fn.Params {
+		if basicKind(p.Type()) == types.Int && p.Name() != "" && p != fn.Params[0] {
+			ef = p
+		}
+	}
+	strip := func(v ssa.Value) ssa.Value {
+		for {
+			if c, ok := v.(*ssa.Convert); ok {
+				v = c.X
+				continue
+			}
+			if cv := capValue(v); cv != v { // a parameter captured by the worker closures lives in an Alloc
+				v = cv
+				continue
+			}
+			return v
+		}
+	}
+	n := 0
+	for _, b := range fn.Blocks {
+		for _, in := range b.Instrs {
+			bo, ok := in.(*ssa.BinOp)
+			if !ok || bo.Op != token.LSS || ef == nil || strip(bo.Y) != ssa.Value(ef) {
+				continue
+			}
+			// the true edge must lead to the sequential insertion (a call of addActive / Add)
+			t, _ := condEdges(bo)
+			seq := false
+			for _, e := range t {
+				if found, _ := (pathQuery{fn: fn, target: func(x ssa.Instruction) bool {
+					return isModCall(x, hnswPkg, "Index.addActive") || isModCall(x, hnswPkg, "Index.Add")
+				}}).find(ipos{e.from.Succs[e.succ], -1}); found {
+					seq = true
+				}
+			}
+			if !seq {
+				continue
+			}
+			n++
+			x := strip(bo.X)
+			verdict, why := "", ""
+			if a, isLen := lenArg(x); isLen && hnswFieldLoad(a, "externalToInternalID") {
+				verdict = "ok"
+			} else if c, ok := x.(*ssa.Call); ok {
+				if o := calleeObj(&c.Call); o != nil && o.Pkg() != nil && o.Pkg().Path() == "sync/atomic" && recvIsField(c, "nodeCounter") {
+					verdict, why = "bad", "the id counter, which only grows"
+				}
+			}
+			switch verdict {
+			case "ok":
+				r.Ok("GRD-smallgraph", "addBatchInternal:small-graph-test", w.Pos(bo.Pos()), "compares len(externalToInternalID) with the ef threshold")
+			case "bad":
+				r.Bad("GRD-smallgraph", "addBatchInternal:small-graph-test", w.Pos(bo.Pos()), "addBatchInternal decides between sequential and parallel insertion by "+why+": after the index was emptied (delete everything, vacuum) a batch is inserted by the parallel path into an empty graph, its nodes cannot see each other, and search finds almost nothing (recall 0.007 measured)")
+			default:
+				r.Und("GRD-smallgraph", "addBatchInternal:small-graph-test", w.Pos(bo.Pos()), "the size compared with the ef threshold is neither len(externalToInternalID) nor the id counter: not recognised")
+			}
+		}
+	}
+	if n == 0 {
+		r.Und("GRD-smallgraph", "anchor:addBatchInternal:small-graph-test", w.Pos(fi.Decl.Pos()), "no `size < ef` test in front of the sequential insertion found")
+	}
+}
